@@ -187,8 +187,9 @@ pub fn exercise(c: &Case, rec: &mut Rec) -> Result<(), String> {
                             e.verif_ram_page_mut(page)[0x10..0x16].copy_from_slice(&[0xCD, 0x56, 0x05, 0xF3, 0x18, 0xFE]);
                             mach::set_regs(&mut e, &RegFile { pc: 0x8010, sp: 0xBF00, ix: 0xC000, de: 0x0100, af: 0xFF01, iy: 0x5C3A, im: 1, ..Default::default() });
                             // several requests in a row (a block abandoned early, then the next one)
-                            for (a, de) in [(0xFFu16, 0x0100u16), (0x00, 0x0011), (0xFF, 0x0002), (0x00, 0x0000)] {
-                                mach::set_regs(&mut e, &RegFile { pc: 0x8010, sp: 0xBF00, ix: 0xC000, de, af: (a << 8) | 1, iy: 0x5C3A, im: 1, ..Default::default() });
+                            // (destinations include the top of memory: a block that ends at or wraps past 0xFFFF)
+                            for (a, de, ix) in [(0xFFu16, 0x0100u16, 0xC000u16), (0x00, 0x0011, 0xFFF8), (0xFF, 0x0002, 0xFFFF), (0x00, 0x0000, 0xFFFF)] {
+                                mach::set_regs(&mut e, &RegFile { pc: 0x8010, sp: 0xBF00, ix, de, af: (a << 8) | 1, iy: 0x5C3A, im: 1, ..Default::default() });
                                 match mach::run_to(&mut e, &[0x8013], 6) {
                                     Ok(_) => {}
                                     Err(x) => {
@@ -731,6 +732,30 @@ pub fn ratio_cases() -> Vec<Case> {
             out.push(Case { target: Target::Gzip, machine: Machine::K48, data, fault: None, cursor: false });
         }
     }
+    // SZX whose compressed RAM page is a valid zlib stream of far more than 16 KiB
+    for n in [20usize << 10, 1 << 20, 17 << 20, 100 << 20] {
+        use flate2::write::ZlibEncoder;
+        let mut e = ZlibEncoder::new(Vec::new(), Compression::default());
+        let chunk = vec![0u8; 1 << 20];
+        let mut left = n;
+        while left > 0 {
+            let k = left.min(chunk.len());
+            e.write_all(&chunk[..k]).unwrap();
+            left -= k;
+        }
+        let z = e.finish().unwrap();
+        for machine in [Machine::K48, Machine::K128] {
+            let mut f: Vec<u8> = b"ZXST".to_vec();
+            f.extend_from_slice(&[1, 4, if machine == Machine::K48 { 1 } else { 2 }, 0]);
+            f.extend_from_slice(b"RAMP");
+            f.extend_from_slice(&((3 + z.len()) as u32).to_le_bytes());
+            f.extend_from_slice(&[1, 0, 5]);
+            f.extend_from_slice(&z);
+            if f.len() <= 160 * 1024 {
+                out.push(Case { target: Target::Szx, machine, data: f, fault: None, cursor: false });
+            }
+        }
+    }
     out
 }
 
@@ -843,7 +868,7 @@ pub fn replay(run: &mut Run, phase: &str, case: &serde_json::Value) -> Result<()
 }
 
 pub const LEVEL: &str = "fault_enumeration";
-pub const RULE: &str = "targets: load_snapshot(SNA|SZX), load_screen(SCR), load_tape(TAP) followed by a ROM fast-load request, rewind and 32 frames of real-time playing, load_rom, GzipAsset::new, Vtx::load followed by playing; both machines; 3 frames of emulation after every outcome. Inputs: (1) committed corpus (repository assets and earlier failures); (2) fault enumeration: for valid files of every format a fault (error, 1-byte / 7-byte short read, premature end-of-data; one-shot or sticky) at EVERY read/seek call index the successful load performs; (2b) length boundaries: valid files of every format cut or padded (0x00 / 0xA5) to every length within a few bytes of each structural boundary (SNA: header, every bank end, 49179, 49183, 131103, 147487; SZX/TAP: every chunk/block header and body end; SCR 6144/6912; ROM 16384/32768; gzip/VTX headers and trailers), offered to both machines; (2c) gzip files of at most 160 KiB that unpack to 1..120 MiB; (3) valid files from the harness' writers with 0..4 field/structure mutations (byte set, 32-bit set incl. 0/1/0xFFFF/0xFFFFFFFF/16383/16385, truncation, append, remove, splice; half of the positions in the first 512 bytes); (4) explicit SZX chunk lists with adversarial ids (non-UTF-8), sizes (0, 1, 2^32-1, ...) and body lengths (0..40, short RAMP pages); (5) VTX headers with adversarial sizes, player frequency 0, missing string terminators; (6) uniform bytes up to 160 KiB with and without magic. Monitor: catch_unwind with overflow checks and debug assertions enabled in all crates (profile `checked`), a counting allocator flagging any single request above max(16 MiB, 64 x input), deterministic loop detection (asset asked to read again after 100000 zero-length results). non-trivial = input passes the format's first size/magic validation as judged by the harness; distinct = hash of (bytes, target, machine, fault)";
+pub const RULE: &str = "targets: load_snapshot(SNA|SZX), load_screen(SCR), load_tape(TAP) followed by four ROM fast-load requests (destinations 0xC000, 0xFFF8 and 0xFFFF, so that blocks end at or wrap past the top of memory), rewind and 32 frames of real-time playing, load_rom, GzipAsset::new, Vtx::load followed by playing; both machines; 3 frames of emulation after every outcome. Inputs: (1) committed corpus (repository assets and earlier failures); (2) fault enumeration: for valid files of every format a fault (error, 1-byte / 7-byte short read, premature end-of-data; one-shot or sticky) at EVERY read/seek call index the successful load performs; (2b) length boundaries: valid files of every format cut or padded (0x00 / 0xA5) to every length within a few bytes of each structural boundary (SNA: header, every bank end, 49179, 49183, 131103, 147487; SZX/TAP: every chunk/block header and body end; SCR 6144/6912; ROM 16384/32768; gzip/VTX headers and trailers), offered to both machines; (2c) gzip files of at most 160 KiB that unpack to 1..120 MiB and SZX files whose compressed RAM page inflates to 20 KiB..100 MiB; (3) valid files from the harness' writers with 0..4 field/structure mutations (byte set, 32-bit set incl. 0/1/0xFFFF/0xFFFFFFFF/16383/16385, truncation, append, remove, splice; half of the positions in the first 512 bytes); (4) explicit SZX chunk lists with adversarial ids (non-UTF-8), sizes (0, 1, 2^32-1, ...) and body lengths (0..40, short RAMP pages); (5) VTX headers with adversarial sizes, player frequency 0, missing string terminators; (6) uniform bytes up to 160 KiB with and without magic. Monitor: catch_unwind with overflow checks and debug assertions enabled in all crates (profile `checked`), a counting allocator flagging any single request above max(16 MiB, 64 x input), deterministic loop detection (asset asked to read again after 100000 zero-length results). non-trivial = input passes the format's first size/magic validation as judged by the harness; distinct = hash of (bytes, target, machine, fault)";
 pub const ASSUMPTIONS: &[&str] = &[
     "Ok and Err are both clean outcomes; an Err from emulate_frames after a failed tape load is clean too",
     "non-termination is detected by a deterministic work counter in the asset, not by wall clock",
